@@ -338,6 +338,17 @@ impl Context {
                 fileids.insert(fileid);
             }
         }
+        // Merging drops tombstones, which is only safe when no older file that may still hold
+        // a value of the deleted key is left behind. A file with tombstones is therefore merged
+        // only together with every file older than it.
+        let mut has_older_unmerged = false;
+        for fileid in self.stats.iter().map(|e| *e.key()).collect::<BTreeSet<_>>() {
+            let tombstones = self.stats.get(&fileid).map_or(0, |e| e.tombstones);
+            if has_older_unmerged && tombstones > 0 {
+                fileids.remove(&fileid);
+            }
+            has_older_unmerged |= !fileids.contains(&fileid);
+        }
         Ok(fileids)
     }
 }
